@@ -346,6 +346,11 @@ class FIXWriter : public AsyncSocket<Message *>
 	f8_spin_lock _con_spl;
 
 public:
+	/*! Queue element telling the writer thread to quit; never dereferenced.
+	    (The FastFlow queue cannot carry a null element: null marks an empty slot.)
+	    \return the sentinel */
+	static Message *quit_sentinel() { static char marker; return reinterpret_cast<Message *>(&marker); }
+
 	/*! Ctor.
 	    \param sock connected socket
 	    \param session session
@@ -483,7 +488,7 @@ public:
 			f8_scoped_lock guard(_start_mutex);
 			if (_started)
 			{
-				_msg_queue.try_push(0);
+				_msg_queue.try_push(quit_sentinel());
 				if (_pmodel == pm_pipeline)
 					AsyncSocket::request_stop();
 			}
